@@ -563,8 +563,12 @@ RbIn ==
             ELSE LET items0 == q.out.v.items
                      items1 == IF Node.sorted /\ items0 # <<>> THEN SortItems(items0, Node.sortkey) ELSE items0
                      items  == IF Node.reverse THEN Reverse(items1) ELSE items1 IN
-                 /\ UNCHANGED exc
-                 /\ IF items = <<>>
+                 /\ IF items0 # <<>> /\ Node.prepfail THEN exc' = Raised(Node.pfcls, "nope") ELSE UNCHANGED exc
+                 /\ IF items0 # <<>> /\ Node.prepfail
+                    THEN \* the preparation of the loop (sort_expr, reverse_expr, batch parameters) fails after the sequence was
+                         \* found non-empty: nothing has been pushed yet
+                         UNCHANGED <<ctl, ns, evs>>
+                    ELSE IF items = <<>>
                     THEN \* else block, rendered without any push
                          /\ ctl' = ctl \o <<[k |-> "in", node |-> Node, st |-> "else", base |-> Len(ns),
                                              items |-> <<>>, idx |-> 0, acc |-> <<>>, last |-> -1, sb |-> Len(ns)]>>
